@@ -423,12 +423,28 @@ func (p *Processor) ProcessMessage(
 	// This means that when many messages are received in quick succession, they can be validated
 	// non blockingly. This also means we have two go routines for sub processor rather than just
 	// a single one.
-	unitChan, err := p.subprocessorChannel(ctx, &key, scheduler)
+	unitChan, created, err := p.subprocessorChannel(ctx, &key, scheduler)
 	if errors.Is(err, errMessageFinalized) {
 		return nil
 	}
 	if err != nil {
 		return fmt.Errorf("couldn't get processor channel for key: %w", err)
+	}
+
+	if created {
+		// The subprocessor's goroutine was started a moment ago and is not receiving yet: a
+		// non-blocking send would drop the very unit it was created for (in practice always, so
+		// that a message whose units arrive once each was never built). Receiving is the first
+		// thing that goroutine does, so this waits for a goroutine start, no longer than the
+		// subprocessor lives.
+		select {
+		case unitChan <- unitWithSender{unit: unit, sender: sender}:
+			return nil
+		case <-ctx.Done():
+			return ctx.Err()
+		case <-time.After(p.timeout):
+		}
+		return errors.New("dropping shard, new subprocessor did not take its first unit")
 	}
 
 	select {
@@ -508,27 +524,27 @@ func (p *Processor) subprocessorChannel(
 	ctx context.Context,
 	key *messageKey,
 	scheduler *Scheduler,
-) (chan<- unitWithSender, error) {
+) (unitChan chan<- unitWithSender, created bool, err error) {
 	p.subMu.Lock()
 	defer p.subMu.Unlock()
 
 	unitChan, ok := p.subProcessors[*key]
 	if ok {
-		return unitChan, nil
+		return unitChan, false, nil
 	}
 
 	// The message may have been finalized since the caller looked at the cache (finalize runs in
 	// Run's goroutine): checked again under the lock, so that no unit of a finished message starts
 	// a second subprocessor for it.
 	if p.finalized.Get(key) {
-		return nil, errMessageFinalized
+		return nil, false, errMessageFinalized
 	}
 
-	unitChan, err := p.createSubprocessor(ctx, key, scheduler)
+	unitChan, err = p.createSubprocessor(ctx, key, scheduler)
 	if err != nil {
-		return nil, fmt.Errorf("creating new subprocessor: %w", err)
+		return nil, false, fmt.Errorf("creating new subprocessor: %w", err)
 	}
-	return unitChan, nil
+	return unitChan, true, nil
 }
 
 // discard forgets a subprocessor without marking its message as finalized.
